@@ -84,6 +84,7 @@ class Cfg:
         self.min_types = 0
         self.redactors = True
         self.union_struct_bias = False
+        self.avoid_word_namespace = False   # keep the word `namespace` out of identifiers and docs
         self.annot_bias = False       # C13: annotations in every namespace and on most members
         self.risky_literals = 0       # how many near-miss literals (C10) a spec may contain
         self.doc_escapes = False      # doc words like C:\\users (\\u... in generated docstrings)
@@ -130,8 +131,12 @@ class Namer:
     def __init__(self, g):
         self.g = g
 
+    avoid = None
+
     def fresh(self, pool, taken, canon=lambda s: s, extra_ok=lambda s: True):
         g = self.g
+        if self.avoid:
+            pool = [w for w in pool if self.avoid not in w.lower()]
         base = g.choice(pool)
         if g.p(25):
             second = g.choice(pool)
@@ -239,6 +244,8 @@ class Builder:
         self.g = G(draw)
         self.cfg = cfg
         self.namer = Namer(self.g)
+        if cfg.avoid_word_namespace:
+            self.namer.avoid = 'namespace'
         self.api = {'namespaces': [], 'schema': None}
         self.rank = {}        # (ns, name) -> global creation order, used to keep graphs acyclic
         self.canon_taken = set()   # stone's global canonical-name table (name+ns, see
@@ -908,7 +915,8 @@ class Builder:
         g, cfg = self.g, self.cfg
         lines = []
         for _ in range(1 if g.p(70) else g.int(2, 3)):
-            words = [g.choice(DOC_WORDS) for _ in range(g.int(1, 6))]
+            pool = [w for w in DOC_WORDS if w != 'namespace'] if cfg.avoid_word_namespace else DOC_WORDS
+            words = [g.choice(pool) for _ in range(g.int(1, 6))]
             if cfg.doc_escapes and g.p(15):
                 words.append(g.choice(['C:\\users', 'a\\N{x}', '\\x4', 'tab\\there', "'''", '\"\"\"']))
             if cfg.docrefs and g.p(35):
